@@ -18,8 +18,11 @@
 //	<who>/exec:<...>                                     the operator cannot be executed by the store (refused / unsafe / never finished step)
 //	<who>/foreign-region, <who>/panic
 //
-// <who> is "scatter" or the scheduler type. See scatter.go and sched.go for the
-// enumerated inputs.
+// <who> is "scatter" or the scheduler type. scatter.go and sched.go hold the two
+// harnesses, scopes.go the enumerated bounds of both tiers.
+//
+// Flags: -scope <prefix> (only these scopes), -list (input counts), -budget <s>,
+// -replay <file>; VERIF_C11_CPUPROFILE=file profiles worker 0.
 package main
 
 import (
@@ -182,7 +185,7 @@ func newCluster(e envSpec) (*mockcluster.Cluster, context.CancelFunc) {
 		must(c.RuleManager.SetRule(&placement.Rule{GroupID: "pd", ID: "learner", Role: placement.Learner, Count: 1}))
 	}
 	// peer ids handed out by the allocator stay away from store ids and the inputs' peer ids
-	for i := 0; i < 2000; i++ {
+	for i := 0; i < 5000; i++ {
 		c.AllocID()
 	}
 	return c, cancel
@@ -313,11 +316,6 @@ func merge(dst, src *counters) {
 	for k, v := range src.StepKinds {
 		dst.StepKinds[k] += v
 	}
-	for _, s := range src.Samples {
-		if len(dst.Samples) < 12 {
-			dst.Samples = append(dst.Samples, s)
-		}
-	}
 }
 
 func stepType(s operator.OpStep) string {
@@ -334,6 +332,11 @@ func (rn *runner) logf(f string, a ...interface{}) {
 		fmt.Printf(f+"\n", a...)
 	}
 }
+
+// lazyStr renders a message part only when a violation is reported.
+type lazyStr func() string
+
+func (l lazyStr) String() string { return l() }
 
 func roleCounts(r *regionsim.Region) (voters, learners, joint int) {
 	for _, p := range r.Peers {
@@ -365,7 +368,7 @@ func (rn *runner) execute(e envSpec, who string, op *operator.Operator, r *regio
 	rn.cnt.By[who]++
 	rn.cnt.States++
 	leaderMoved := false
-	acceptsLeader := func(store uint64, at string) *violation {
+	acceptsLeader := func(store uint64, at fmt.Stringer) *violation {
 		k := e.kind(store)
 		if k < 0 {
 			return bad("leader-to-store:missing", "%s: leadership goes to store %d which does not exist", at, store)
@@ -384,7 +387,7 @@ func (rn *runner) execute(e envSpec, who string, op *operator.Operator, r *regio
 		}
 		rn.cnt.Steps++
 		rn.cnt.StepKinds[typ]++
-		at := fmt.Sprintf("step %d/%d %s on %s", i+1, op.Len(), step, r)
+		at := lazyStr(func() string { return fmt.Sprintf("step %d/%d [%s] (region %s)", i+1, op.Len(), step, r) })
 		// (1) the statement's conditions on the individual moves
 		var addStore, addID uint64
 		switch st := step.(type) {
@@ -488,7 +491,7 @@ func (rn *runner) execute(e envSpec, who string, op *operator.Operator, r *regio
 	}
 	if ls := r.LeaderStore(); ls != before.LeaderStore() {
 		leaderMoved = true
-		if v := acceptsLeader(ls, "final state "+r.String()); v != nil {
+		if v := acceptsLeader(ls, lazyStr(func() string { return "final state " + r.String() })); v != nil {
 			return v
 		}
 	}
@@ -497,6 +500,13 @@ func (rn *runner) execute(e envSpec, who string, op *operator.Operator, r *regio
 		shape += ", leader moved"
 	}
 	rn.cnt.Shapes[shape]++
+	if len(rn.cnt.Samples) < 2 && (moved > 0 || who != "scatter") && rn.cnt.By[who] > 3 {
+		var steps []string
+		for i := 0; i < op.Len(); i++ {
+			steps = append(steps, op.Step(i).String())
+		}
+		rn.cnt.Samples = append(rn.cnt.Samples, fmt.Sprintf("%s => [%s] : %s -> %s", ctx(), strings.Join(steps, " ; "), before, r))
+	}
 	rn.logf("    executed: %s -> %s", before, r)
 	return nil
 }
@@ -592,6 +602,7 @@ func (rn *runner) eval(in *input, cc *clusterCache) (v *violation) {
 		}
 	}()
 	rn.cnt.Inputs++
+	vclock.Enable(vclock.Epoch) // ScatterRegions sleeps (virtually) between retries: every input starts at the epoch
 	if in.Scatter != nil {
 		return rn.runScatter(in.Scatter, cc.get(in.Scatter.Env))
 	}
@@ -825,6 +836,12 @@ func main() {
 			}
 			r := results[sh]
 			merge(tot, r.Cnt)
+			for _, smp := range r.Cnt.Samples {
+				if len(tot.Samples) < 2 {
+					tot.Samples = append(tot.Samples, smp)
+					cov.Samples = append(cov.Samples, map[string]interface{}{"scope": sc.name, "case": smp})
+				}
+			}
 			cpu += r.CPU
 			complete = complete && r.Complete
 			for k := range r.Viol {
@@ -856,9 +873,6 @@ func main() {
 	for _, k := range order {
 		v := best[k]
 		rep.Report(&evidence.Violation{Scenario: bestScope[k], Key: v.Key, Message: v.Msg, Replay: v.Input})
-	}
-	for _, s := range total.Samples {
-		cov.Samples = append(cov.Samples, s)
 	}
 	cov.States = total.States
 	cov.Transitions = total.Steps
